@@ -1,12 +1,17 @@
 // Driver for C18 (logout redirects only to post-logout URIs registered for the proven
-// client). One end-session request per case over HTTP (recorder) against one of the two
-// routers of the shared fixture; id_token_hints are really signed. path.Match and
-// url.Parse are recorded per case as oracle tables.
+// client). A case is ONE provider instance (issuer mode, verification options, storage
+// capabilities, two client registrations) and 1-4 end-session requests sent to it in sequence
+// over HTTP (recorder), each on one of the two routers of the shared fixture; id_token_hints
+// are really signed (the provider's keys or somebody else's). path.Match and url.Parse are
+// recorded per case as oracle tables.
 package main
 
 import (
+	"context"
 	"crypto/ecdsa"
+	"crypto/rsa"
 	"encoding/json"
+	"errors"
 	"fmt"
 	"net/http"
 	"net/http/httptest"
@@ -110,7 +115,7 @@ func clientTerm(c *refstore.Client) string {
 
 var postPool = []string{"https://app.example.com/bye", "https://app.example.com/bye?x=1", "https://app.example.com/out#top",
 	"myapp://bye", "http://localhost:3000/bye", "https://app.example.com/bye?z=9&state=old&a=1", "https://app.example.com/a%20b",
-	"https://other.example.org/logout/done", "https://[2001:db8::1]/bye", "https://rp.example/bye?src=op"}
+	"https://other.example.org/logout/done", "https://[2001:db8::1]/bye", "https://rp.example/bye?src=op", "https://app.example.com/done/", "https://app.example.com/Bye"}
 var plGlobPool = []string{"https://app.example.com/*", "https://*.example.com/bye", "https://app.example.com/by?", "myapp://*",
 	"https://app.example.com/[a-c]ye", "https://[", "https://app.example.com/[a-", "https://app.example.com/bye\\", "*", "https://app.example.com/*/*"}
 var plShots = []string{"https://app.example.com/anything", "https://sub.example.com/bye", "https://app.example.com/byX", "myapp://x",
@@ -171,7 +176,7 @@ func mutate(r drv.Rand, base string) (string, string) {
 	}
 	switch r.IntN(9) {
 	case 0:
-		return base + drv.Pick(r, []string{"/x", "x", "?x=1", "#f", "/../evil", "&y=2", "/"}), "suffix"
+		return base + drv.Pick(r, []string{"/x", "x", "?x=1", "#f", "/../evil", "&y=2", "/", "/", " ", "%20", "+", "%2F", "?", "#"}), "suffix"
 	case 1:
 		return drv.Pick(r, []string{"https://evil.example/?u=", "https://evil.example/", "x"}) + base, "prefix"
 	case 2:
@@ -194,6 +199,16 @@ func mutate(r drv.Rand, base string) (string, string) {
 	case 5:
 		return drv.Pick(r, []string{"https://app.example.com/%zz", base + "\x7f", "http://[::1/bye", ":"}), "unparseable"
 	case 6:
+		if r.Bool() { // exact comparison: no trailing-slash or case normalisation
+			if t := strings.TrimSuffix(base, "/"); t != base {
+				return t, "trimslash"
+			}
+			if i := strings.Index(base, "://"); i >= 0 {
+				if t := base[:i+3] + swapCase(base[i+3:]); t != base {
+					return t, "pathcase"
+				}
+			}
+		}
 		if strings.HasPrefix(base, "https://") {
 			return "http://" + base[8:], "scheme"
 		}
@@ -203,7 +218,26 @@ func mutate(r drv.Rand, base string) (string, string) {
 	}
 }
 
-var states = []string{"xyz", "a b&c=d", "a+b", "%41%zz", "\xc3\xbc\xe2\x82\xac", "#frag?x=1", "\x00\x7f\xff", "=&=&", "state", "https://evil.example/?state=1"}
+// swapCase flips the case of the ASCII letters after the authority (host case is mutate's case 3)
+func swapCase(rest string) string {
+	j := strings.IndexAny(rest, "/?#")
+	if j < 0 {
+		return rest
+	}
+	b := []byte(rest)
+	for i := j; i < len(b); i++ {
+		switch {
+		case b[i] >= 'a' && b[i] <= 'z':
+			b[i] -= 32
+		case b[i] >= 'A' && b[i] <= 'Z':
+			b[i] += 32
+		}
+	}
+	return string(b)
+}
+
+var states = []string{"xyz", "a b&c=d", "a+b", "%41%zz", "\xc3\xbc\xe2\x82\xac", "#frag?x=1", "\x00\x7f\xff", "=&=&", "state", "https://evil.example/?state=1",
+	"null", "NULL", "nil", "undefined", "true", "false", "0", "[]", "{}", " xyz ", "\txyz", "xyz\r\n", "xyz/", "XYZ", "%20xyz%20", "+xyz+"}
 
 func genState(r drv.Rand) (string, string) {
 	switch r.IntN(5) {
@@ -221,18 +255,47 @@ func genState(r drv.Rand) (string, string) {
 // ---------------------------------------------------------------- hints
 
 type hintSpec struct {
-	kind     string // none valid expired future badsig foreign garbage tampered expbadsig
+	kind     string // none valid expired future badsig foreign garbage tampered expbadsig keyword
 	sub, azp string
 	iss      string // issuer the token is signed for ("" = the issuer of the request it is sent with)
-	key      string // provider key that signs it: "k1" / "k2" ("" = k1)
+	key      string // key of the pool that signs it ("" = k1)
+	text     string // kind "keyword": the literal parameter value
 }
 
-// the provider's signing keys; which of them the storage publishes varies per request
+// The key pool. k1, k2 (EC, ES256) and r1 (RSA, RS256) are the provider's own signing keys; which
+// of them the storage publishes varies per request. fk and pk belong to somebody else (a partner
+// whose ACCESS tokens may be trusted by a custom key set): the provider never signs with them.
+func keyOf(name string) (any, jose.SignatureAlgorithm) {
+	switch name {
+	case "", "k1":
+		return opfix.ECKey("op-k1"), jose.ES256
+	case "r1":
+		return opfix.RSAKey(), jose.RS256
+	case "k2":
+		return opfix.ECKey("op-k2"), jose.ES256
+	}
+	return opfix.ECKey("foreign-" + name), jose.ES256
+}
+
+func ownKey(name string) bool { return name == "" || name == "k1" || name == "k2" || name == "r1" }
+
 func provKey(name string) *refstore.SigningKey {
 	if name == "" {
 		name = "k1"
 	}
-	return &refstore.SigningKey{KID: name, Alg: jose.ES256, Priv: opfix.ECKey("op-" + name)}
+	priv, alg := keyOf(name)
+	return &refstore.SigningKey{KID: name, Alg: alg, Priv: priv}
+}
+
+func pubOf(name string) any {
+	priv, _ := keyOf(name)
+	switch k := priv.(type) {
+	case *ecdsa.PrivateKey:
+		return &k.PublicKey
+	case *rsa.PrivateKey:
+		return &k.PublicKey
+	}
+	return nil
 }
 
 func (h hintSpec) keyName() string {
@@ -242,28 +305,140 @@ func (h hintSpec) keyName() string {
 	return h.key
 }
 
+// ---------------------------------------------------------------- provider options
+
+// ksSpec describes a custom oidc.KeySet (C18_Session.keyset): it trusts what the storage
+// publishes while the request is served (own) and / or the named keys of the pool.
+type ksSpec struct {
+	own   bool
+	fixed []string
+}
+
+type customKeySet struct {
+	own   oidc.KeySet // nil: the storage's keys are not consulted
+	fixed []string
+}
+
+func (k *customKeySet) VerifySignature(ctx context.Context, jws *jose.JSONWebSignature) ([]byte, error) {
+	if k.own != nil {
+		if payload, err := k.own.VerifySignature(ctx, jws); err == nil {
+			return payload, nil
+		}
+	}
+	if len(jws.Signatures) != 1 {
+		return nil, errors.New("c18: exactly one signature expected")
+	}
+	kid := jws.Signatures[0].Header.KeyID
+	for _, name := range k.fixed {
+		if name == kid {
+			return jws.Verify(pubOf(name))
+		}
+	}
+	return nil, errors.New("c18: key not trusted")
+}
+
+// optSpec is one provider option (C18_Session.popt); ks indexes esCase.keysets, so that the
+// same index is the same Go object.
+type optSpec struct {
+	kind string // atkeys hintkeys atalgs hintalgs
+	ks   int
+	algs []string
+}
+
+func (k ksSpec) term() string {
+	return emit.Ctor("Build_keyset", emit.Bool(k.own), emit.StrList(k.fixed))
+}
+
+func (c esCase) optTerms() []string {
+	out := []string{}
+	for _, o := range c.opts {
+		switch o.kind {
+		case "atkeys":
+			out = append(out, emit.Ctor("OptATKeys", c.keysets[o.ks].term()))
+		case "hintkeys":
+			out = append(out, emit.Ctor("OptHintKeys", c.keysets[o.ks].term()))
+		case "atalgs":
+			out = append(out, emit.Ctor("OptATAlgs", emit.StrList(o.algs)))
+		case "hintalgs":
+			out = append(out, emit.Ctor("OptHintAlgs", emit.StrList(o.algs)))
+		}
+	}
+	return out
+}
+
+func (c esCase) optTag() string {
+	if len(c.opts) == 0 {
+		return "opts=none"
+	}
+	seen := map[string]bool{}
+	first := ""
+	for _, o := range c.opts {
+		seen[o.kind] = true
+		if first == "" && (o.kind == "atkeys" || o.kind == "hintkeys") {
+			first = o.kind
+		}
+	}
+	var ks []string
+	for _, k := range []string{"atkeys", "hintkeys", "atalgs", "hintalgs"} {
+		if seen[k] {
+			ks = append(ks, k)
+		}
+	}
+	t := "opts=" + strings.Join(ks, "+")
+	if seen["atkeys"] && seen["hintkeys"] {
+		t += "/" + first + "-first"
+	}
+	return t
+}
+
+// hintTrusted: does the configuration the case ASKS for designate a key set / algorithms under
+// which this hint is validly signed (only used to aim the TerminateSession fault at the call a
+// correct provider makes).
+func (c esCase) hintTrusted(h hintSpec, pub []string) bool {
+	ks := ksSpec{own: true}
+	var algs []string
+	for _, o := range c.opts {
+		switch o.kind {
+		case "hintkeys":
+			ks = c.keysets[o.ks]
+		case "hintalgs":
+			algs = o.algs
+		}
+	}
+	if len(algs) == 0 {
+		algs = []string{"RS256", "ES256", "PS256"}
+	}
+	_, alg := keyOf(h.keyName())
+	if !slices.Contains(algs, string(alg)) {
+		return false
+	}
+	return (ks.own && slices.Contains(pub, h.keyName())) || slices.Contains(ks.fixed, h.keyName())
+}
+
 // term: what the driver knows about the token (C18_Session.tok)
 func (h hintSpec) term(current string) string {
 	iss := h.iss
 	if iss == "" {
 		iss = current
 	}
+	_, a := keyOf(h.keyName())
+	alg := emit.Str(string(a))
 	switch h.kind {
 	case "none":
 		return "TNone"
 	case "valid":
-		return emit.Ctor("TSigned", emit.Str(h.keyName()), emit.Str(iss), "false", emit.Str(h.sub), emit.Str(h.azp))
+		return emit.Ctor("TSigned", emit.Str(h.keyName()), alg, emit.Str(iss), "false", emit.Str(h.sub), emit.Str(h.azp))
 	case "expired", "future":
-		return emit.Ctor("TSigned", emit.Str(h.keyName()), emit.Str(iss), "true", emit.Str(h.sub), emit.Str(h.azp))
+		return emit.Ctor("TSigned", emit.Str(h.keyName()), alg, emit.Str(iss), "true", emit.Str(h.sub), emit.Str(h.azp))
 	case "foreign":
-		return emit.Ctor("TSigned", emit.Str(h.keyName()), emit.Str("https://evil.example"), "false", emit.Str(h.sub), emit.Str(h.azp))
+		return emit.Ctor("TSigned", emit.Str(h.keyName()), alg, emit.Str("https://evil.example"), "false", emit.Str(h.sub), emit.Str(h.azp))
 	default:
 		return "TBad"
 	}
 }
 
-func sign(key any, kid string, claims map[string]any) string {
-	signer, err := jose.NewSigner(jose.SigningKey{Algorithm: jose.ES256, Key: &jose.JSONWebKey{Key: key, KeyID: kid}}, (&jose.SignerOptions{}).WithType("JWT"))
+func sign(key any, kid string, alg jose.SignatureAlgorithm, claims map[string]any) string {
+	signer, err := jose.NewSigner(jose.SigningKey{Algorithm: alg, Key: &jose.JSONWebKey{Key: key, KeyID: kid}}, (&jose.SignerOptions{}).WithType("JWT"))
 	if err != nil {
 		panic(err)
 	}
@@ -279,7 +454,26 @@ func sign(key any, kid string, claims map[string]any) string {
 	return s
 }
 
-func (h hintSpec) token(current string) string {
+// tokCache: within one case the same hint description at the same issuer is the SAME token
+// string (ECDSA signatures are randomised: signing twice would give two tokens), so that a
+// sequence can present one token twice - before and after its key was withdrawn, at two hosts -
+// and a payload swapped under the signature of a token that was accepted a moment ago.
+type tokCache map[string]string
+
+func (tc tokCache) get(h hintSpec, current string) string {
+	if h.iss == "" {
+		h.iss = current
+	}
+	k := fmt.Sprintf("%#v", h)
+	if t, ok := tc[k]; ok {
+		return t
+	}
+	t := h.token(current, tc)
+	tc[k] = t
+	return t
+}
+
+func (h hintSpec) token(current string, tc tokCache) string {
 	sk := provKey(h.key)
 	iss := h.iss
 	if iss == "" {
@@ -291,13 +485,25 @@ func (h hintSpec) token(current string) string {
 	if h.kind == "garbage" {
 		return "aaa.bbb.ccc"
 	}
+	if h.kind == "keyword" { // what a careless client sends for "no hint"
+		return h.text
+	}
+	if h.kind == "tampered" { // header and signature of the really signed token, somebody else's payload
+		good := h
+		good.kind = "valid"
+		parts := strings.Split(tc.get(good, current), ".")
+		now := time.Now()
+		other := strings.Split(sign(sk.Priv, sk.KID, sk.Alg, map[string]any{"iss": iss, "sub": "mallory", "azp": h.azp, "aud": []string{"x"},
+			"iat": now.Unix(), "exp": now.Add(time.Hour).Unix()}), ".")
+		return parts[0] + "." + other[1] + "." + parts[2]
+	}
 	now := time.Now()
 	claims := map[string]any{"iss": iss, "sub": h.sub, "aud": []string{"somebody"},
 		"iat": now.Add(-2 * time.Hour).Unix(), "exp": now.Add(2 * time.Hour).Unix(), "auth_time": now.Add(-2 * time.Hour).Unix()}
 	if h.azp != "" {
 		claims["azp"] = h.azp
 	}
-	key, kid := sk.Priv, sk.KID
+	key, kid, alg := sk.Priv, sk.KID, sk.Alg
 	switch h.kind {
 	case "expired", "expbadsig":
 		claims["exp"] = now.Add(-time.Hour).Unix()
@@ -307,16 +513,9 @@ func (h hintSpec) token(current string) string {
 		claims["iss"] = "https://evil.example"
 	}
 	if h.kind == "badsig" || h.kind == "expbadsig" {
-		key = opfix.ECKey("attacker")
+		key, alg = opfix.ECKey("attacker"), jose.ES256
 	}
-	tok := sign(key, kid, claims)
-	if h.kind == "tampered" {
-		parts := strings.Split(tok, ".")
-		other := strings.Split(sign(key, kid, map[string]any{"iss": iss, "sub": "mallory", "azp": h.azp, "aud": []string{"x"},
-			"iat": now.Unix(), "exp": now.Add(time.Hour).Unix()}), ".")
-		tok = parts[0] + "." + other[1] + "." + parts[2]
-	}
-	return tok
+	return sign(key, kid, alg, claims)
 }
 
 // ---------------------------------------------------------------- one case
@@ -330,6 +529,8 @@ type esCase struct {
 	tags       []string
 	tsMode     string // "" storage without the optional CanTerminateSessionFromRequest; "echo" | "fixed" | "error"
 	tsFixed    string
+	keysets    []ksSpec  // custom key sets (one Go object each)
+	opts       []optSpec // provider options, in the order they are passed to NewProvider
 }
 
 type esReq struct {
@@ -384,7 +585,28 @@ func run(w *emit.Writer, c esCase) {
 		tsfr = &refstore.TSFR{Mode: c.tsMode, Fixed: c.tsFixed}
 		wrap = func(st op.Storage) op.Storage { tsfr.Storage = st; return tsfr }
 	}
-	f, err := opfix.NewWithIssuerStorage(store, opfix.Options{DefaultLogout: c.defaultU}, issuer, wrap)
+	sets := make([]oidc.KeySet, len(c.keysets))
+	for i, k := range c.keysets {
+		cks := &customKeySet{fixed: k.fixed}
+		if k.own {
+			cks.own = &op.OpenIDKeySet{Storage: store.AsStorage(true, true, true)}
+		}
+		sets[i] = cks
+	}
+	var popts []op.Option
+	for _, o := range c.opts {
+		switch o.kind {
+		case "atkeys":
+			popts = append(popts, op.WithAccessTokenKeySet(sets[o.ks]))
+		case "hintkeys":
+			popts = append(popts, op.WithIDTokenHintKeySet(sets[o.ks]))
+		case "atalgs":
+			popts = append(popts, op.WithAccessTokenVerifierOpts(op.WithSupportedAccessTokenSigningAlgorithms(o.algs...)))
+		case "hintalgs":
+			popts = append(popts, op.WithIDTokenHintVerifierOpts(op.WithSupportedIDTokenHintSigningAlgorithms(o.algs...)))
+		}
+	}
+	f, err := opfix.NewWithIssuerStorage(store, opfix.Options{DefaultLogout: c.defaultU, ProviderOpts: popts}, issuer, wrap)
 	if err != nil {
 		fmt.Fprintln(os.Stderr, "fixture:", err)
 		os.Exit(2)
@@ -395,6 +617,7 @@ func run(w *emit.Writer, c esCase) {
 	}
 	parse := []string{defaultU}
 	var reqTerms, outs []string
+	tc := tokCache{}
 	var human []map[string]any
 	var uris []string
 	for _, rq := range c.reqs {
@@ -409,9 +632,9 @@ func run(w *emit.Writer, c esCase) {
 		store.ExtraPub = nil
 		for _, k := range pub[1:] {
 			sk := provKey(k)
-			store.ExtraPub = append(store.ExtraPub, &refstore.PublicKey{KID: sk.KID, Alg: sk.Alg, UseStr: "sig", Pub: &sk.Priv.(*ecdsa.PrivateKey).PublicKey})
+			store.ExtraPub = append(store.ExtraPub, &refstore.PublicKey{KID: sk.KID, Alg: sk.Alg, UseStr: "sig", Pub: pubOf(k)})
 		}
-		if tok := rq.hint.token(cur); tok != "" {
+		if tok := tc.get(rq.hint, cur); tok != "" {
 			q.Set("id_token_hint", tok)
 		}
 		if rq.clientID != "" {
@@ -430,7 +653,7 @@ func run(w *emit.Writer, c esCase) {
 		}
 		if rq.fault == 2 && tsfr == nil { // the journal name carries the arguments: aim at the call a correct provider makes
 			eu, ec := "", ""
-			accepted := verifiable(rq.hint.kind) && (rq.hint.iss == "" || rq.hint.iss == cur) && slices.Contains(pub, rq.hint.keyName())
+			accepted := verifiable(rq.hint.kind) && (rq.hint.iss == "" || rq.hint.iss == cur) && c.hintTrusted(rq.hint, pub)
 			if accepted {
 				eu, ec = rq.hint.sub, rq.hint.azp
 			} else if rq.hint.kind == "none" {
@@ -473,7 +696,7 @@ func run(w *emit.Writer, c esCase) {
 		parse = append(parse, rq.uri)
 		uris = append(uris, rq.uri)
 		human = append(human, map[string]any{"router": rq.router.String(), "host": rq.host, "forwarded": rq.fwd, "issuer": cur,
-			"hint_kind": rq.hint.kind, "hint_sub": rq.hint.sub, "hint_azp": rq.hint.azp, "hint_iss": rq.hint.iss, "hint_key": rq.hint.keyName(), "published": pub, "client_id": rq.clientID,
+			"hint_kind": rq.hint.kind, "hint_text": rq.hint.text, "hint_sub": rq.hint.sub, "hint_azp": rq.hint.azp, "hint_iss": rq.hint.iss, "hint_key": rq.hint.keyName(), "published": pub, "client_id": rq.clientID,
 			"post_logout_redirect_uri": rq.uri, "state": rq.state, "fault": rq.fault, "status": resp.Status, "location": resp.Header.Get("Location"),
 			"body": resp.Body, "journal": store.JournalCopy()})
 	}
@@ -492,9 +715,26 @@ func run(w *emit.Writer, c esCase) {
 		http.Redirect(rec, httptest.NewRequest(http.MethodGet, "https://op.example.com/end_session", nil), c.tsFixed, http.StatusFound)
 		tsTerm = emit.Ctor("TS_Fixed", emit.Str(rec.Header().Get("Location")))
 	}
-	in := emit.Ctor("IEnd", emit.Str(defaultU), tsTerm, emit.List(cl), tables(c.clients, uris, parse), emit.List(reqTerms))
+	in := emit.Ctor("IEnd", emit.Str(defaultU), tsTerm, emit.List(c.optTerms()), emit.List(cl), tables(c.clients, uris, parse), emit.List(reqTerms))
 	w.Add(emit.Case{Input: in, Observed: emit.Ctor("OEnd", emit.List(outs)), Tags: c.tags,
-		Human: map[string]any{"issuer_mode": c.issuerMode, "tsfr": c.tsMode, "tsfr_fixed": c.tsFixed, "default": defaultU, "requests": human, "clients": clientsHuman(c.clients)}})
+		Human: map[string]any{"options": c.optsHuman(), "issuer_mode": c.issuerMode, "tsfr": c.tsMode, "tsfr_fixed": c.tsFixed, "default": defaultU, "requests": human, "clients": clientsHuman(c.clients)}})
+}
+
+func (c esCase) optsHuman() []string {
+	out := []string{}
+	for _, o := range c.opts {
+		switch o.kind {
+		case "atkeys", "hintkeys":
+			k := c.keysets[o.ks]
+			name := map[string]string{"atkeys": "WithAccessTokenKeySet", "hintkeys": "WithIDTokenHintKeySet"}[o.kind]
+			out = append(out, fmt.Sprintf("%s(keyset#%d{storage keys: %v, plus: %v})", name, o.ks, k.own, k.fixed))
+		case "atalgs":
+			out = append(out, fmt.Sprintf("WithAccessTokenVerifierOpts(algs %v)", o.algs))
+		case "hintalgs":
+			out = append(out, fmt.Sprintf("WithIDTokenHintVerifierOpts(algs %v)", o.algs))
+		}
+	}
+	return out
 }
 
 func clientsHuman(cs []*refstore.Client) []map[string]any {
@@ -507,6 +747,49 @@ func clientsHuman(cs []*refstore.Client) []map[string]any {
 
 var hosts = []string{"a.example.com", "b.example.com"}
 
+// client ids are compared exactly. nearIDs: what a case-insensitive, white-space-trimming,
+// slash-trimming or Unicode-folding comparison would take for id (U+212A KELVIN SIGN folds to k,
+// U+017F LONG S to s).
+func nearIDs(id string) []string {
+	out := []string{strings.ToUpper(id), id + " ", " " + id, id + "\t", id + "\n", "\r\n" + id, id + "/", id + "\x00", id + "%20", "+" + id}
+	if f := strings.NewReplacer("k", "\u212a", "s", "\u017f").Replace(id); f != id {
+		out = append(out, f, strings.Replace(id, "s", "\u017f", 1), strings.Replace(id, "k", "\u212a", 1))
+	}
+	return out
+}
+
+var keywordIDs = []string{"null", "NULL", "nil", "undefined", "0", "true", "false", "[]", "{}", " "}
+
+// the custom key sets an integrator may hand to the provider
+var ksPool = []ksSpec{{own: true, fixed: []string{"fk"}}, {own: true, fixed: []string{"fk"}}, {own: true, fixed: []string{"fk"}}, {own: true, fixed: []string{"k1", "fk"}}, {own: false, fixed: []string{"fk"}}, {own: true},
+	{own: true, fixed: []string{"fk", "pk"}}, {own: false}, {own: false, fixed: []string{"k1"}}, {own: true, fixed: []string{"pk"}}, {own: false, fixed: []string{"k2", "pk"}}}
+
+var algPool = [][]string{nil, {"ES256"}, {"RS256", "ES256"}, {"ES256", "PS256"}, {"RS256"}, {"ES256"}, {"RS256", "ES256"}, {"PS256"}, {"EdDSA"}, {"es256"}, {"ES256 "}, {"ES384", "ES256"}}
+
+// genOpts draws the provider OPTION dimension: none (2 in 5), or 1-4 of WithAccessTokenKeySet /
+// WithIDTokenHintKeySet / With*VerifierOpts(algorithms) in any order, over 1-2 key set objects
+// (the same object may be given to several options).
+func genOpts(r drv.Rand, c *esCase) {
+	if r.Chance(2, 5) {
+		return
+	}
+	nk := 1 + r.IntN(2)
+	for i := 0; i < nk; i++ {
+		c.keysets = append(c.keysets, drv.Pick(r, ksPool))
+	}
+	n := drv.Pick(r, []int{1, 1, 2, 2, 2, 3, 4})
+	for i := 0; i < n; i++ {
+		o := optSpec{kind: drv.Pick(r, []string{"atkeys", "atkeys", "atkeys", "hintkeys", "hintkeys", "hintkeys", "atalgs", "hintalgs"})}
+		switch o.kind {
+		case "atkeys", "hintkeys":
+			o.ks = r.IntN(nk)
+		default:
+			o.algs = drv.Pick(r, algPool)
+		}
+		c.opts = append(c.opts, o)
+	}
+}
+
 // genReq draws one request for the provider c; tags get its input classes.
 func genReq(r drv.Rand, c *esCase, tags map[string]bool) esReq {
 	a, b := c.clients[0], c.clients[1]
@@ -517,17 +800,27 @@ func genReq(r drv.Rand, c *esCase, tags map[string]bool) esReq {
 	if r.Chance(1, 3) {
 		q.fwd = drv.Pick(r, hosts)
 	}
-	hk := drv.Pick(r, []string{"none", "none", "valid", "valid", "valid", "valid", "expired", "expired", "future", "badsig", "foreign", "garbage", "tampered", "expbadsig"})
-	azp := drv.Pick(r, []string{"c0", "c0", "c0", "c1", "", "ghost"})
+	hk := drv.Pick(r, []string{"none", "none", "valid", "valid", "valid", "valid", "valid", "valid", "expired", "expired", "expired", "future", "badsig", "foreign", "garbage", "tampered", "expbadsig"})
+	azp := drv.Pick(r, []string{"ks0", "ks0", "ks0", "ks1", "", "ghost"})
 	q.hint = hintSpec{kind: hk, sub: drv.Pick(r, []string{"alice", "bob", "user 1", "u:1"})}
 	issKind := "current"
-	q.published = drv.Pick(r, [][]string{{"k1"}, {"k1"}, {"k2"}, {"k1", "k2"}, {"k2", "k1"}})
+	q.published = drv.Pick(r, [][]string{{"k1"}, {"k1"}, {"k1"}, {"k1"}, {"k2"}, {"k1", "k2"}, {"k1", "k2"}, {"k2", "k1"}, {"k1", "r1"}, {"r1", "k2"}, {"r1"}})
 	keyKind := "none"
 	if hk != "none" {
-		q.hint.key = drv.Pick(r, []string{"k1", "k1", "k2"})
+		q.hint.key = drv.Pick(r, []string{"k1", "k1", "k1", "k1", "k1", "k1", "k1", "k2", "k2", "r1", "fk", "pk"})
+		if len(c.keysets) > 0 && r.Chance(1, 4) { // a key one of the custom key sets names
+			if fx := drv.Pick(r, c.keysets).fixed; len(fx) > 0 {
+				q.hint.key = drv.Pick(r, fx)
+			}
+		}
+		if ownKey(q.hint.key) && !slices.Contains(q.published, q.hint.key) && r.Chance(1, 3) {
+			q.hint.key = q.published[0]
+		}
 		keyKind = "withdrawn"
 		if slices.Contains(q.published, q.hint.key) {
 			keyKind = "published"
+		} else if !ownKey(q.hint.key) {
+			keyKind = "foreign"
 		}
 		q.hint.azp = azp
 		if r.Chance(1, 4) { // a hint of another issuer of the same provider (same key)
@@ -538,18 +831,53 @@ func genReq(r drv.Rand, c *esCase, tags map[string]bool) esReq {
 			}
 		}
 	}
+	if hk == "garbage" && r.Bool() {
+		q.hint.kind, q.hint.text = "keyword", drv.Pick(r, []string{"null", "undefined", "nil", "0", "false", "{}", "[]", " ", "..", "e30.e30.", "eyJhbGciOiJub25lIn0.e30."})
+		hk = "keyword"
+	}
+	reuse := "fresh"
+	if n := len(c.reqs); n > 0 && r.Chance(1, 4) { // the very token of an earlier request again, or its payload swapped under its signature
+		if prev := c.reqs[r.IntN(n)]; prev.hint.kind != "none" && prev.hint.kind != "keyword" {
+			q.hint, hk, azp, reuse = prev.hint, prev.hint.kind, prev.hint.azp, "same"
+			if q.hint.iss == "" { // pinned to the issuer it was signed for
+				q.hint.iss = c.issuer(prev)
+			}
+			if hk == "valid" && r.Chance(1, 3) {
+				q.hint.kind, hk, reuse = "tampered", "tampered", "swapped"
+			}
+			issKind, keyKind = "current", "withdrawn"
+			if q.hint.iss != c.issuer(q) {
+				issKind = "other"
+			}
+			if slices.Contains(q.published, q.hint.keyName()) {
+				keyKind = "published"
+			} else if !ownKey(q.hint.keyName()) {
+				keyKind = "foreign"
+			}
+		}
+	}
 	cidKind := "absent"
 	switch r.IntN(6) {
 	case 0, 1:
 		q.clientID, cidKind = azp, "same"
 	case 2:
-		q.clientID, cidKind = drv.Pick(r, []string{"c0", "c1", "ghost"}), "any"
+		q.clientID, cidKind = drv.Pick(r, []string{"ks0", "ks1", "ghost"}), "any"
 	}
 	if hk == "none" && r.Chance(2, 3) {
-		q.clientID, cidKind = drv.Pick(r, []string{"c0", "c0", "c1", "ghost"}), "named"
+		q.clientID, cidKind = drv.Pick(r, []string{"ks0", "ks0", "ks1", "ghost"}), "named"
+	}
+	if r.Chance(1, 8) { // must be compared exactly: neighbours of the hint's azp / of a registered id, keyword-like values
+		base := "ks0"
+		if hk != "none" && azp != "" {
+			base = azp
+		}
+		q.clientID, cidKind = drv.Pick(r, nearIDs(base)), "nearmiss"
+		if r.Chance(1, 4) {
+			q.clientID, cidKind = drv.Pick(r, keywordIDs), "keyword"
+		}
 	}
 	owner := a
-	if (hk == "none" && q.clientID == "c1") || (hk != "none" && azp == "c1") {
+	if (hk == "none" && q.clientID == "ks1") || (hk != "none" && azp == "ks1") {
 		owner = b
 	}
 	uriKind := "none"
@@ -582,7 +910,7 @@ func genReq(r drv.Rand, c *esCase, tags map[string]bool) esReq {
 			q.fault = 1
 		}
 	}
-	for _, t := range []string{"hintkey=" + keyKind, "router=" + q.router.String(), "hint=" + hk, "hintiss=" + issKind, "client_id=" + cidKind, "uri=" + uriKind,
+	for _, t := range []string{"hinttoken=" + reuse, "hintkey=" + keyKind, "router=" + q.router.String(), "hint=" + hk, "hintiss=" + issKind, "client_id=" + cidKind, "uri=" + uriKind,
 		"state=" + stKind, fmt.Sprintf("fault=%d", q.fault), fmt.Sprintf("globs=%v", owner.UseGlobs), fmt.Sprintf("forwarded=%v", q.fwd != "")} {
 		tags[t] = true
 	}
@@ -592,7 +920,8 @@ func genReq(r drv.Rand, c *esCase, tags map[string]bool) esReq {
 func gen(r drv.Rand, w *emit.Writer) {
 	c := esCase{issuerMode: drv.Pick(r, []int{0, 1, 1, 2, 2})}
 	c.defaultU = drv.Pick(r, []string{"", "", "https://op.example.com/bye?x=1", "https://op.example.com/done#top", "https://op.example.com/%zz"})
-	c.clients = []*refstore.Client{genClient(r, "c0"), genClient(r, "c1")}
+	c.clients = []*refstore.Client{genClient(r, "ks0"), genClient(r, "ks1")}
+	genOpts(r, &c)
 	// the storage may implement the optional CanTerminateSessionFromRequest
 	switch r.IntN(8) {
 	case 0, 1:
@@ -602,12 +931,12 @@ func gen(r drv.Rand, w *emit.Writer) {
 	case 3:
 		c.tsMode = "error"
 	}
-	n := drv.Pick(r, []int{1, 1, 2, 3, 4})
+	n := drv.Pick(r, []int{1, 2, 2, 3, 4})
 	tags := map[string]bool{}
 	for i := 0; i < n; i++ {
 		c.reqs = append(c.reqs, genReq(r, &c, tags))
 	}
-	c.tags = []string{fmt.Sprintf("issuer_mode=%d", c.issuerMode), fmt.Sprintf("requests=%d", n), "tsfr=" + c.tsMode}
+	c.tags = []string{fmt.Sprintf("issuer_mode=%d", c.issuerMode), fmt.Sprintf("requests=%d", n), "tsfr=" + c.tsMode, c.optTag()}
 	var ts []string
 	for t := range tags {
 		ts = append(ts, t)
@@ -618,9 +947,9 @@ func gen(r drv.Rand, w *emit.Writer) {
 }
 
 func directed(w *emit.Writer) {
-	web := &refstore.Client{ID: "c0", PostLogout: []string{"https://app.example.com/bye", "https://app.example.com/bye?z=9&state=old&a=1"}, UseGlobs: true,
+	web := &refstore.Client{ID: "ks0", PostLogout: []string{"https://app.example.com/bye", "https://app.example.com/bye?z=9&state=old&a=1"}, UseGlobs: true,
 		PostLogoutGlobs: []string{"https://app.example.com/out/*"}}
-	other := &refstore.Client{ID: "c1", PostLogout: []string{"https://other.example.org/logout/done"}}
+	other := &refstore.Client{ID: "ks1", PostLogout: []string{"https://other.example.org/logout/done"}}
 	cl := []*refstore.Client{web, other}
 	for _, router := range []opfix.Router{opfix.Provider, opfix.Legacy} {
 		for _, hk := range []string{"none", "valid", "expired", "badsig", "foreign", "expbadsig", "tampered"} {
@@ -628,9 +957,9 @@ func directed(w *emit.Writer) {
 				"https://app.example.com/bye?z=9&state=old&a=1", "https://evil.example/bye"} {
 				for _, st := range []string{"", "a b&c=d+e"} {
 					h := hintSpec{kind: hk, sub: "alice"}
-					cid := "c0"
+					cid := "ks0"
 					if hk != "none" {
-						h.azp, cid = "c0", ""
+						h.azp, cid = "ks0", ""
 					}
 					run(w, esCase{clients: cl, reqs: []esReq{{router: router, host: "op.example.com", hint: h, clientID: cid, uri: u, state: st}},
 						tags: []string{"directed=grid", "router=" + router.String(), "hint=" + hk}})
@@ -638,20 +967,20 @@ func directed(w *emit.Writer) {
 			}
 		}
 		// contradicting client_id, hint of another client asking for this client's URI
-		run(w, esCase{clients: cl, reqs: []esReq{{router: router, host: "op.example.com", hint: hintSpec{kind: "valid", sub: "alice", azp: "c1"}, clientID: "c0", uri: "https://app.example.com/bye"}},
+		run(w, esCase{clients: cl, reqs: []esReq{{router: router, host: "op.example.com", hint: hintSpec{kind: "valid", sub: "alice", azp: "ks1"}, clientID: "ks0", uri: "https://app.example.com/bye"}},
 			tags: []string{"directed=contradict", "router=" + router.String(), "hint=valid"}})
-		run(w, esCase{clients: cl, reqs: []esReq{{router: router, host: "op.example.com", hint: hintSpec{kind: "valid", sub: "alice", azp: "c1"}, uri: "https://app.example.com/bye"}},
+		run(w, esCase{clients: cl, reqs: []esReq{{router: router, host: "op.example.com", hint: hintSpec{kind: "valid", sub: "alice", azp: "ks1"}, uri: "https://app.example.com/bye"}},
 			tags: []string{"directed=otherclient", "router=" + router.String(), "hint=valid"}})
 		// dynamic issuer: one provider, two hosts; hints of host A at host B and back
 		for _, mode := range []int{1, 2} {
-			hA := hintSpec{kind: "valid", sub: "alice", azp: "c0", iss: "https://a.example.com"}
-			hB := hintSpec{kind: "valid", sub: "bob", azp: "c0", iss: "https://b.example.com"}
+			hA := hintSpec{kind: "valid", sub: "alice", azp: "ks0", iss: "https://a.example.com"}
+			hB := hintSpec{kind: "valid", sub: "bob", azp: "ks0", iss: "https://b.example.com"}
 			fw := ""
 			if mode == 2 {
 				fw = "b.example.com"
 			}
 			run(w, esCase{issuerMode: mode, clients: cl, reqs: []esReq{
-				{router: router, host: "a.example.com", hint: hintSpec{kind: "none"}, clientID: "c0"},
+				{router: router, host: "a.example.com", hint: hintSpec{kind: "none"}, clientID: "ks0"},
 				{router: router, host: "b.example.com", hint: hA, uri: "https://app.example.com/bye"},
 				{router: router, host: "b.example.com", hint: hB, uri: "https://app.example.com/bye", state: "s"},
 				{router: router, host: "a.example.com", fwd: fw, hint: hB},
@@ -659,8 +988,8 @@ func directed(w *emit.Writer) {
 				tags: []string{"directed=hosts", "router=" + router.String(), fmt.Sprintf("issuer_mode=%d", mode)}})
 		}
 		// signing-key rotation on one provider: k1 used, withdrawn, presented again, republished
-		h1 := hintSpec{kind: "valid", sub: "alice", azp: "c0", key: "k1"}
-		h2 := hintSpec{kind: "valid", sub: "alice", azp: "c0", key: "k2"}
+		h1 := hintSpec{kind: "valid", sub: "alice", azp: "ks0", key: "k1"}
+		h2 := hintSpec{kind: "valid", sub: "alice", azp: "ks0", key: "k2"}
 		run(w, esCase{clients: cl, reqs: []esReq{
 			{router: router, host: "op.example.com", hint: h1, uri: "https://app.example.com/bye", published: []string{"k1"}},
 			{router: router, host: "op.example.com", hint: h2, uri: "https://app.example.com/bye", published: []string{"k1"}},
@@ -669,12 +998,60 @@ func directed(w *emit.Writer) {
 			{router: router, host: "op.example.com", hint: h2, uri: "https://app.example.com/bye", state: "s", published: []string{"k2"}},
 			{router: router, host: "op.example.com", hint: h1, published: []string{"k2", "k1"}}},
 			tags: []string{"directed=rotation", "router=" + router.String()}})
+		// the provider OPTION dimension: which key set judges the hint. partner = the storage's keys + fk,
+		// only = fk alone, pinned = k1 whatever the storage publishes
+		partner, only, pinned, wider := ksSpec{own: true, fixed: []string{"fk"}}, ksSpec{fixed: []string{"fk"}}, ksSpec{fixed: []string{"k1"}}, ksSpec{own: true, fixed: []string{"fk", "pk"}}
+		kss := []ksSpec{partner, only, pinned, wider}
+		at, hi := func(i int) optSpec { return optSpec{kind: "atkeys", ks: i} }, func(i int) optSpec { return optSpec{kind: "hintkeys", ks: i} }
+		for _, opts := range [][]optSpec{nil, {at(0)}, {hi(0)}, {at(0), hi(0)}, {hi(0), at(0)}, {at(0), hi(1)}, {hi(1), at(0)}, {at(0), at(3)}, {hi(0), hi(1)}, {hi(1), hi(0)},
+			{at(0), hi(0), at(3)}, {at(1)}, {hi(1)}, {at(2)}, {hi(2)}, {at(3), hi(2)},
+			{{kind: "atalgs", algs: []string{"RS256"}}}, {{kind: "hintalgs", algs: []string{"RS256"}}}, {{kind: "atalgs", algs: []string{"RS256"}}, at(0)},
+			{{kind: "hintalgs", algs: []string{"ES256"}}, {kind: "atalgs", algs: []string{"PS256"}}}, {{kind: "hintalgs", algs: []string{"RS256"}}, {kind: "hintalgs"}}} {
+			hint := func(key, kind, sub string) hintSpec { return hintSpec{kind: kind, sub: sub, azp: "ks0", key: key} }
+			c := esCase{clients: cl, keysets: kss, opts: opts, reqs: []esReq{
+				{router: router, host: "op.example.com", hint: hint("k1", "valid", "alice"), uri: "https://app.example.com/bye"},
+				{router: router, host: "op.example.com", hint: hint("fk", "valid", "mallory"), uri: "https://app.example.com/bye"},
+				{router: router, host: "op.example.com", hint: hint("pk", "valid", "mallory"), uri: "https://app.example.com/bye", state: "s"},
+				{router: router, host: "op.example.com", hint: hint("fk", "expired", "bob")},
+				{router: router, host: "op.example.com", hint: hint("k1", "valid", "alice"), uri: "https://app.example.com/bye", published: []string{"k2"}},
+				{router: router, host: "op.example.com", hint: hint("r1", "valid", "alice"), uri: "https://app.example.com/bye", published: []string{"k1", "r1"}},
+				{router: router, host: "op.example.com", hint: hint("fk", "badsig", "mallory"), uri: "https://app.example.com/bye"}}}
+			c.tags = []string{"directed=options", c.optTag(), "router=" + router.String()}
+			run(w, c)
+		}
+		// client_id next to the proven / a registered id: never the same client
+		var near []esReq
+		for _, v := range append(nearIDs("ks0"), "ks1", "null") {
+			near = append(near, esReq{router: router, host: "op.example.com", hint: h1, clientID: v, uri: "https://app.example.com/bye"},
+				esReq{router: router, host: "op.example.com", hint: hintSpec{kind: "none"}, clientID: v, uri: "https://app.example.com/bye", state: "s"})
+		}
+		run(w, esCase{clients: cl, reqs: near, tags: []string{"directed=nearid", "router=" + router.String()}})
+		// one router instance, a full request and then requests that OMIT one parameter each (a
+		// recycled request struct would carry the earlier value over)
+		full := esReq{router: router, host: "op.example.com", hint: h1, clientID: "ks0", uri: "https://app.example.com/bye", state: "first"}
+		noHint, noCid, noURI, noState := full, full, full, full
+		noHint.hint, noHint.clientID = hintSpec{kind: "none"}, ""
+		noCid.clientID = ""
+		noURI.uri = ""
+		noState.state = ""
+		other1 := esReq{router: router, host: "op.example.com", hint: hintSpec{kind: "none"}, clientID: "ks1", uri: "https://other.example.org/logout/done", state: "second"}
+		bare := esReq{router: router, host: "op.example.com", hint: hintSpec{kind: "none"}}
+		for _, seq := range [][]esReq{{full, noHint, full, noCid}, {full, noURI, full, noState}, {full, bare, other1, bare}, {other1, noState, noURI, bare}} {
+			run(w, esCase{clients: cl, reqs: seq, tags: []string{"directed=omit", "router=" + router.String()}})
+		}
+		// size: states beyond 1 KiB and 4 KiB come back whole
+		for _, n := range []int{1100, 4200} {
+			run(w, esCase{clients: cl, reqs: []esReq{
+				{router: router, host: "op.example.com", hint: h1, uri: "https://app.example.com/bye", state: strings.Repeat("s", n-3) + "e d"},
+				{router: router, host: "op.example.com", hint: hintSpec{kind: "none"}, state: strings.Repeat("\xc3\xbc", n/2)}},
+				tags: []string{"directed=longstate", "router=" + router.String()}})
+		}
 		// storages with the optional CanTerminateSessionFromRequest; requests that identify no client
 		for _, ts := range [][2]string{{"echo", ""}, {"fixed", ""}, {"fixed", "https://consent.example/logout"}, {"error", ""}} {
 			run(w, esCase{clients: cl, tsMode: ts[0], tsFixed: ts[1], reqs: []esReq{
 				{router: router, host: "op.example.com", hint: hintSpec{kind: "none"}, uri: "https://evil.example/bye"},
 				{router: router, host: "op.example.com", hint: hintSpec{kind: "none"}, uri: "https://evil.example/bye", state: "s t"},
-				{router: router, host: "op.example.com", hint: hintSpec{kind: "none"}, clientID: "c0", uri: "https://app.example.com/bye", state: "s"},
+				{router: router, host: "op.example.com", hint: hintSpec{kind: "none"}, clientID: "ks0", uri: "https://app.example.com/bye", state: "s"},
 				{router: router, host: "op.example.com", hint: h1, uri: "https://evil.example/bye"},
 				{router: router, host: "op.example.com", hint: h1, uri: "https://app.example.com/out/x"}},
 				tags: []string{"directed=tsfr", "tsfr=" + ts[0], "router=" + router.String()}})
@@ -696,7 +1073,7 @@ func main() {
 		gen(r, w)
 	}
 	err := w.Close(emit.Meta{Property: "C18", Tier: cfg.Tier, Seed: cfg.Seed,
-		Rule: "1-4 GET /end_session requests in sequence on ONE provider instance whose storage publishes a per-request subset of two signing keys (rotation / withdrawal between requests) and may implement the optional CanTerminateSessionFromRequest (echo / own URI incl. empty / error) (static issuer, op.IssuerFromHost or op.IssuerFromForwardedOrHost; Host / Forwarded header vary per request), each on a random router: hint kind (absent, valid, expired, iat in the future, wrong key, foreign issuer, not a JWT, payload swapped, expired+wrong key; really signed ES256; 1/4 signed for another issuer of the same provider) x azp (client, other client, none, unknown) x client_id (absent, same, contradicting, unknown) x post_logout_redirect_uri (absent, registered, registered for the other client, glob instance, mutated: suffix/prefix/userinfo/host case/foreign/unparseable/scheme) x state (absent, plain, special characters, random bytes) x two random registrations (0-3 URIs, optional path.Match globs incl. malformed) x default logout URI x storage fault; plus a directed grid and directed two-host sequences. non-trivial = some request not rejected because of its hint; distinct = distinct Coq input terms",
+		Rule: "1-4 GET /end_session requests in sequence on ONE provider instance built with 0-4 verification OPTIONS in any order (WithAccessTokenKeySet / WithIDTokenHintKeySet over 1-2 custom key-set objects that trust the storage's keys and / or foreign or pinned keys; With*VerifierOpts(signing algorithms)), whose storage publishes a per-request subset of three signing keys (k1, k2 EC, r1 RSA: rotation / withdrawal between requests; hints are signed with those or with the foreign keys fk, pk; 1/4 of the later requests present the very token of an earlier request again or its payload swapped under its signature) and may implement the optional CanTerminateSessionFromRequest (echo / own URI incl. empty / error) (static issuer, op.IssuerFromHost or op.IssuerFromForwardedOrHost; Host / Forwarded header vary per request), each on a random router: hint kind (absent, valid, expired, iat in the future, wrong key, foreign issuer, not a JWT, payload swapped, expired+wrong key; really signed ES256; 1/4 signed for another issuer of the same provider) x azp (client, other client, none, unknown) x client_id (absent, same, contradicting, unknown) x post_logout_redirect_uri (absent, registered, registered for the other client, glob instance, mutated: suffix/prefix/userinfo/host case/foreign/unparseable/scheme) x state (absent, plain, special characters, random bytes) x two random registrations (0-3 URIs, optional path.Match globs incl. malformed) x default logout URI x storage fault; plus a directed grid and directed two-host sequences. non-trivial = some request not rejected because of its hint; distinct = distinct Coq input terms",
 	})
 	if err != nil {
 		fmt.Fprintln(os.Stderr, err)
